@@ -35,7 +35,48 @@ NATIVE = {
     "C09": [("game-history", ["--games=40", "--plies=20"], ["--games=400", "--plies=40"])],
     "C04": [("position-cmd", ["--games=60", "--plies=24"], ["--games=600", "--plies=60"]), ("to-algebraic", [], [])],
 }
+# property -> Kani leaf harnesses (complete proofs: full-domain symbolic inputs, loops bounded by a small constant with unwinding
+# assertions on) that discharge a contract Verus only ASSUMES because the function body is outside its subset
+KANI = {
+    "C02": [("get_piece_at_contract", "board::Board::get_piece_at == position.piece_on(square): all 2^512 bitboard octets x 64 squares; loop bound 7 (six piece kinds), unwinding assertions on"),
+            ("get_color_at_contract", "board::Board::get_color_at == position.color_on(square): all bitboards x 64 squares; loop bound 3")],
+}
 _built = {"ok": None, "log": ""}
+
+
+def run_kani(pid):
+    """(records, violations) for the Kani leaf harnesses of property pid"""
+    out, viol = [], []
+    if pid not in KANI:
+        return out, viol
+    kdir = os.path.join(VERIF, "kani")
+    lock = os.path.join(os.environ.get("FLOUNDER_REPO", "/repo"), "Cargo.lock")
+    try:
+        import shutil
+        shutil.copy(lock, os.path.join(kdir, "Cargo.lock"))
+    except OSError:
+        pass
+    env = dict(os.environ, CARGO_NET_OFFLINE="true", CARGO_TARGET_DIR=os.path.join(VERIF, "build", "kani_target"), RUSTFLAGS="--cfg flounder_verif")
+    for name, what in KANI[pid]:
+        t0 = time.time()
+        try:
+            p = subprocess.run(["cargo", "kani", "--harness", name], cwd=kdir, env=env, stdout=subprocess.PIPE, stderr=subprocess.STDOUT, text=True, timeout=900)
+            txt = p.stdout
+        except Exception as e:  # noqa
+            txt = "kani did not run: %s" % e
+        ok = "VERIFICATION:- SUCCESSFUL" in txt
+        failed = "VERIFICATION:- FAILED" in txt
+        rec = {"name": "kani-complete:" + name, "status": "ok" if ok else ("violation" if failed else "undecided"), "bounded": False,
+               "counts_as_proof": True, "obligations": 1, "discharged": 1 if ok else 0, "what": what,
+               "cmd": "RUSTFLAGS='--cfg flounder_verif' cargo kani --harness %s (in /verif/kani; real files by #[path])" % name,
+               "wall_s": round(time.time() - t0, 1)}
+        out.append(rec)
+        if failed:
+            tail = "\n".join(l for l in txt.splitlines() if "FAIL" in l or "Failed Checks" in l)[-1500:]
+            viol.append({"obligation": "kani:" + name, "backend": "kani-complete", "messages": [{"rendered": tail, "message": tail}]})
+        elif not ok:
+            rec["log"] = txt[-800:]
+    return out, viol
 
 
 def build():
@@ -122,7 +163,7 @@ def bounded_standin(pid, tier, seed, bdir):
 
 def run_for(pid, tier, seed, bdir, spec):
     """secondary evidence; (list of records, list of violations)"""
-    out, viol = [], []
+    out, viol = run_kani(pid)
     # the bounded native checks run in the thorough tier, and in every tier for a property part of whose cone is outside
     # the verifier's reach (spec["native_always"]): there they are the stated bounded stand-in for that part
     if (tier != "thorough" and not spec.get("native_always")) or pid not in NATIVE:
